@@ -88,7 +88,8 @@ def run(v, tier, seed):
         if not is_rerun and isinstance(res["cur"], dict) and res["cur"].get("history"):
             def again():
                 hp = W("host_rerun%s.ndjson" % k)
-                vlib.write_ndjson(hp, [dict(h["case"], **{"from": h["from"]}) for h in res["cur"]["history"]])
+                first = open(path).readline()      # the prelude / epilogue line of HostileSpace's output goes with every re-run
+                vlib.write_ndjson(hp, ([json.loads(first)] if '"prelude"' in first else []) + [dict(h["case"], **{"from": h["from"]}) for h in res["cur"]["history"]])
                 return hostile_run(hp, "%s-rerun" % k, 1, 0, 0, True)
             res["rerun"] = again
         return res
